@@ -199,6 +199,7 @@ contract("usim._primitives.context.Scope.do",
                                      ensures=["self._children == old(self._children)", "self._volatile_children == old(self._volatile_children)",
                                               "loop._pending == old(loop._pending)"])},
          ensures=["fresh_obj(result) and result.parent is self and result.__volatile__ == volatile and result._result is None",
+                  "result.payload is payload",
                   "result.__runner__.state == 0 and not result._done._value and result.linked and not result.reported",
                   # C01: the start date reaches the task unconverted (`after=0` / `at=now` mean "in this time step");
                   # a date computed from the caller's date (e.g. at - now) would not be the same float
@@ -233,7 +234,7 @@ contract("usim._primitives.context.Scope.do",
                    "Task.start_delay", "Task.start_at", "Task.payload", "Task.parent", "Task.__volatile__", "Task._result", "Task._cancellations", "Task._done", "Task.__runner__",
                    "Task.linked", "Task.reported", "coroutine.task", "coroutine.state", "Done._task", "Done._value", "Done._inverse",
                    "NotDone._done", "Notification._waiting", "Notification.lock", "Notification.queue"],
-         props=["C04", "C01", "C06"])
+         props=["C04", "C01", "C06", "C16"])
 
 # ---------------------------------------------------------------- interrupts of a scope
 invariant("InterruptScope", "wellformed",
@@ -273,7 +274,7 @@ contract("usim._primitives.context.Scope.__aenter__",
          requires=["loop.activity is me"],
          raises={"RuntimeError": dict(when="self._activity is not None", suspended=False, ensures=["self._activity is old(self._activity)"])},
          ensures=["result is self", "self._activity is me"],
-         modifies=["Scope._activity@self"], props=["C04"])
+         modifies=["Scope._activity@self"], props=["C04", "C16"])
 
 contract("usim._primitives.context.InterruptScope.__init__",
          params={"self": REF("InterruptScope"), "notification": REF("Notification")},
@@ -357,6 +358,9 @@ contract("usim._primitives.context.Scope._close_volatile",
 rely("InterruptScope", [], "not self.armed and self._activity is not None", ensures="not self.armed",
      why="only __aenter__ arms a scope, and it refuses a scope that has been entered before")
 rely("Scope", ["_activity"], "self._activity is not None", why="_activity is assigned once, in __aenter__")
+rely("Scope", ["_interruptable"], "self._activity is me and self._interruptable",
+     why="scan W: `_interruptable = False` only happens in Scope._disable_interrupts, which only the scope's own __aexit__ calls "
+         "(run by the owning activity)", suspension_only=True)
 rely("InterruptScope", [], "self.armed and self._activity is me", ensures="self.armed",
      why="only the owning activity's _disable_interrupts disarms its scope")
 FINISHED = "forall(self._children, lambda t: t._result is not None) and forall(self._volatile_children, lambda t: t._result is not None)"
@@ -390,7 +394,9 @@ contract("usim._primitives.context.Scope.__await__",
 
 contract("usim._primitives.context.Scope.__aexit__",
          params={"self": REF("Scope"), "exc_type": OPT(ANY), "exc_val": OPT(REF("BaseException")), "exc_tb": OPT(ANY)}, returns=BOOL,
-         requires=["loop.activity is me", "self._activity is me", "self._interruptable",
+         # (a forceful close runs the block's exit inside whoever called .close(): no claim about loop.activity then)
+         requires=["implies(exc_val is None or not is_a(exc_val, GeneratorExit), loop.activity is me)",
+                   "self._activity is me", "self._interruptable",
                    "implies(isinstance(self, InterruptScope), cast(self, InterruptScope).armed)",
                    "implies(exc_type is None, exc_val is None)", "implies(exc_val is not None, typeof(exc_val) is exc_type)",
                    "implies(exc_type is not None, exc_val is not None)",
@@ -403,9 +409,10 @@ contract("usim._primitives.context.Scope.__aexit__",
          ensures=[
              # C20: leaving a block normally always yields to the other activities first
              "implies(exc_type is None, suspensions() >= 1)",
+             "implies(exc_val is None or not is_a(exc_val, GeneratorExit), loop.activity is me)",
              # returns True (swallow) exactly for the scope's own signals when no child failure has to be reported
              "implies(exc_type is not None, result == (exc_val is self._cancel_self or "
              "        (isinstance(self, InterruptScope) and exc_val is cast(self, InterruptScope)._interrupt)))"],
          raises={"BaseException": dict(ensures=["True"])},
          on_signal=[], on_close=[],
-         props=["C04", "C05", "C07", "C03", "C20"])
+         props=["C04", "C05", "C07", "C03", "C20", "C16"])
